@@ -22,7 +22,10 @@ use super::util::perm_for_indices;
 cfg_if::cfg_if! {
     if #[cfg(feature = "multithread")] {
         use std::cell::RefCell;
+        #[cfg(not(yui_verif))]
         use std::sync::RwLock;
+        #[cfg(yui_verif)]
+        use yui::verif::sync::RwLock;
         use thread_local::ThreadLocal;
         use rayon::prelude::*;
     }
@@ -262,9 +265,6 @@ impl PivotFinder {
         let row_counter = SyncCounter::new();
 
         remain_rows.par_iter().for_each(|&i| { 
-            #[cfg(yui_verif)]
-            yui::verif::point("pivot:task-start", Some(&|| pivots.try_read().is_ok()));
-
             let mut loc_pivots = init_tls(&loc_pivots_tls, || 
                 pivots.read().unwrap().clone()
             ).borrow_mut();
@@ -302,9 +302,6 @@ impl PivotFinder {
             // If changes are made in other threads, update `loc_pivots` and retry.
             // Otherwise, modify `pivots` and exit.
         
-            #[cfg(yui_verif)]
-            yui::verif::point("pivot:before-write", Some(&|| pivots.try_write().is_ok()));
-
             let mut pivots = pivots.write().unwrap();
             w.update_diff(&loc_pivots, &pivots);
             
